@@ -3,8 +3,9 @@ import logging
 import fnmatch
 import itertools
 import json
-from functools import partial
-from copy import deepcopy
+import threading
+from functools import partial, wraps
+from copy import copy, deepcopy
 import types
 import typing as ty
 from enum import IntEnum
@@ -28,6 +29,19 @@ NOT_PER_CHUNK_ALLOWED_PLUGINS = (strax.LoopPlugin, strax.OverlapWindowPlugin)
 
 # use tqdm as loaded in utils (from tqdm.notebook when in a jupyter env)
 tqdm = strax.utils.tqdm
+
+# One context is used by several threads at once when loading multiple runs (strax.multi_run).
+# Resolving plugins reads and fills the shared plugin cache; do that one thread at a time.
+_PLUGIN_RESOLUTION_LOCK = threading.RLock()
+
+
+def _locked_plugin_resolution(f):
+    @wraps(f)
+    def wrapped(*args, **kwargs):
+        with _PLUGIN_RESOLUTION_LOCK:
+            return f(*args, **kwargs)
+
+    return wrapped
 
 
 @strax.takes_config(
@@ -802,6 +816,7 @@ class Context:
         requested_plugins = {i: v for i, v in requested_plugins.items() if i in targets}
         return requested_plugins
 
+    @_locked_plugin_resolution
     def _get_plugins(
         self,
         targets: ty.Union[ty.Tuple[str], ty.List[str]],
@@ -1674,6 +1689,12 @@ class Context:
                 if is_superrun:
                     # In case the checking about allow_superrun shows error
                     p.allow_superrun = True
+                # Register the temporary plugin in a private copy of the registry: other threads
+                # may be running get_iter on this context (multi-run loading) and must neither
+                # see nor clean up this call's temporary plugin. Storage, config and the
+                # plugin cache stay shared.
+                self = copy(self)
+                self._plugin_class_registry = self._plugin_class_registry.copy()
                 self.register(p)
                 targets = (temp_name,)
             elif not allow_multiple or processor is strax.SingleThreadProcessor:
@@ -2086,6 +2107,7 @@ class Context:
             zarray.attrs["RUNS"] = dict(zarray.attrs.get("RUNS", {}), **INSERTED)
         return group
 
+    @_locked_plugin_resolution
     def key_for(self, run_id, target, chunk_number=None, combining=False):
         """Get the DataKey for a given run and a given target plugin. The DataKey is inferred from
         the plugin lineage. The lineage can come either from the _fixed_plugin_cache or computed on
